@@ -182,6 +182,15 @@ def _starts():
         F = scope.mk_cnf(*cat[13], description='description moved last')
         F.header.move_to_end('description')
         return F
+    def hdr_tool():
+        # the entries the command line tools write themselves, as a formula
+        # produced by `cnfgen --seed 42 ...` and handed to the library carries them
+        F = scope.mk_cnf(*cat[12], description='made by the command line')
+        F.header['random seed'] = 42
+        F.header['command line'] = 'cnfgen --seed 42 php 3 2'
+        F.header['seed'] = 'another spelling'
+        return F
+    out['hdr:tool'] = hdr_tool
     out['hdr:custom'] = hdr_custom
     out['hdr:prior1'] = hdr_prior
     out['hdr:prior2'] = hdr_prior2
@@ -837,7 +846,8 @@ def _mk_simple(kind, n, edges):
     if kind == 'cnfgen':
         return scope.mk_graph(n, edges)
     if kind == 'named':
-        return scope.mk_graph(n, edges, name='my {graph} #1')
+        # a name with characters special to format strings, or the empty name
+        return scope.mk_graph(n, edges, name='my {graph} #1' if len(edges) % 2 else '')
     G = networkx.Graph()
     if kind == 'nx':
         G.add_nodes_from(range(1, n + 1))
@@ -863,7 +873,7 @@ def _mk_directed(kind, n, edges):
     if kind in ('cnfgen', 'named'):
         G = scope.mk_digraph(n, edges)
         if kind == 'named':
-            G.name = 'my {digraph}'
+            G.name = 'my {digraph}' if len(edges) % 2 else ''
         return G
     G = networkx.DiGraph()
     if kind == 'nxodd':
@@ -882,7 +892,7 @@ def _mk_bip(kind, L, Rr, edges):
     if kind in ('cnfgen', 'named'):
         G = scope.mk_bipartite(L, Rr, edges)
         if kind == 'named':
-            G.name = 'my {bipartite}'
+            G.name = 'my {bipartite}' if len(edges) % 2 else ''
         return G
     if kind == 'complete':
         return CompleteBipartiteGraph(L, Rr)
@@ -1079,7 +1089,7 @@ def graph_cases(tier):
     if thorough:
         bsizes += [(3, 2), (2, 3), (3, 1), (1, 3)]
     bips = [(L, Rr, [list(e) for e in es]) for (L, Rr) in bsizes for es in scope.bipartite_graphs(L, Rr)]
-    skinds = ['cnfgen', 'nx'] + (['named', 'nxs', 'nxodd'] if thorough else ['nxs', 'nxodd'])
+    skinds = ['cnfgen', 'nx', 'named', 'nxs', 'nxodd']
     classes = ['CNF', 'OPB']
     fams = _graph_fams()
     cs = []
